@@ -675,7 +675,7 @@ def primary_cases(tier, rng):
     Every case runs the command line.
     quick: one haplotype order, the curated haplotype / Target mode / texel size / output name rotate with the position and
     the kind of tag, three-haplotype maps: every second position; thorough: each haplotype curated in turn for every
-    position, every rotation of the haplotype order, Target off and on, texel size 1 or 10 (seeded).
+    position, every rotation of the haplotype order, Target mode and texel size (1 or 10) seeded.
     """
     quick = tier == "quick"
     n = 0
@@ -690,7 +690,7 @@ def primary_cases(tier, rng):
                         continue  # quick: every second position of the three-haplotype maps (alternating with the kind of tag)
                     # quick: the curated haplotype and Target mode rotate with the position and the kind of tag
                     for primary in ((pi + si) % n_hap,) if quick else range(n_hap):
-                        for target in ((False, True)[(pi // n_hap + si) % 2],) if quick else (False, True):
+                        for target in ((False, True)[(pi // n_hap + si) % 2],) if quick else (rng.random() < 0.5,):
                             n += 1
                             bpt = (1.0, 10.0)[n % 2] if quick else rng.choice((1.0, 10.0))
                             haps = tag_sets[n % len(tag_sets)]
